@@ -401,6 +401,11 @@ func ZZ_C41_SealSignatures() {
 	zzsym.Cover("seal-done")
 }
 
+// Same check, other bounds (two proposers, commit messages with endorser signatures, shorter sequences).
+func ZZ_C41_SealSignaturesWide() {
+	ZZ_C41_SealSignatures()
+}
+
 func ZZ_C41_EndorseDone_witness() {
 	r := zzNewRound()
 	r.messages(2, 1, 0)
